@@ -37,6 +37,14 @@ def main():
             b = sh("cargo build --release --offline", cwd=f"{scratch}/sim", env=env)
             if b.returncode != 0:
                 print(f"RESULT {os.path.basename(d)} {prop} BUILD-FAILED\n{b.stderr[-800:]}"); continue
+            if '--all-props' in sys.argv:
+                # every registered check against this change (used for benign changes: which checks stay silent)
+                for q in ["C03", "C04", "C05", "C06", "C07", "C08", "C10", "C12", "C16"]:
+                    rq = sh(f"{scratch}/target/release/dltsim check {q} {tier}", env=env)
+                    sig = [l.strip() for l in rq.stdout.splitlines() if l.strip().startswith(("clause/signature", "HARNESS"))]
+                    print(f"ALLPROPS {os.path.basename(d)} check={q} exit={rq.returncode} {sig[:3]}")
+                    sys.stdout.flush()
+                continue
             r = sh(f"{scratch}/target/release/dltsim check {prop} {tier}", env=env)
             lines = [l for l in r.stdout.splitlines() if l.startswith(("VIOLATION", "  clause", "  detail", "[C", "HARNESS"))]
             print("\n".join(lines[:10]))
